@@ -202,12 +202,12 @@ func init() {
 		Drivers:   func(c *engine.Ctx) []*engine.HDriver { return c12Drivers(c.Thorough) },
 		Run: func(c *engine.Ctx) *engine.Report {
 			rep := &engine.Report{Level: "model_checking", Coverage: map[string]any{"exhaustive": true}}
+			mergeS(c, rep, c12Scenarios(c.Thorough), engine.SPlan{Bounds: boundsFor(c, []int{0, 1, 2}, []int{0, 1, 2, 3}), Race: true, RaceMaxBound: 1, RaceFuncs: []string{"ApproveOrDenyWrite", "addPendingApproval", "processWriteApprovalCallbacks"}})
 			for _, d := range c12Drivers(c.Thorough) {
 				// the canonical state space (pending sets, tallies, answered verdicts, connection) is finite: closure
 				st := engine.RunHistories(c, d, 64, rep)
 				engine.AddHCoverage(rep, d.Name, st, len(d.Alphabet))
 			}
-			mergeS(c, rep, c12Scenarios(c.Thorough), engine.SPlan{Bounds: boundsFor(c, []int{0, 1, 2}, []int{0, 1, 2, 3}), Race: true, RaceMaxBound: 1, RaceFuncs: []string{"ApproveOrDenyWrite", "addPendingApproval", "processWriteApprovalCallbacks"}})
 			rep.Assumptions = []string{"the approval timeout is a virtual timer whose expiry is a scheduler choice at any point (cost 1 when something else could run); verdicts are delivered from the goroutines the stack starts for the callbacks"}
 			return rep
 		},
